@@ -136,6 +136,19 @@ def check_scope_lookup(sf, mdtree):
             "return getattr(parent, 'page_is_written', lambda: True)()")
     if "\n".join(ast.unparse(n) for n in body) != want:
         refuse("FortranBase.page_is_written changed")
+    # MetaMarkdown.convert: the context of a conversion is its own argument (set on every call), reset() clears it
+    mcls = [n for n in mdtree.body if isinstance(n, ast.ClassDef) and n.name == "MetaMarkdown"]
+    mf = {n.name: n for n in mcls[0].body if isinstance(n, ast.FunctionDef)} if len(mcls) == 1 else {}
+    if "convert" not in mf or "reset" not in mf:
+        refuse("_markdown.py: MetaMarkdown.convert / reset not found")
+    cbody = [n for n in mf["convert"].body if not (isinstance(n, ast.Expr) and isinstance(n.value, ast.Constant))]
+    if not cbody or ast.unparse(cbody[0]) != "self.current_context = context":
+        refuse("MetaMarkdown.convert no longer starts with `self.current_context = context`")
+    if sum(1 for n in ast.walk(mf["convert"]) if isinstance(n, ast.Attribute) and n.attr == "current_context"
+           and isinstance(n.ctx, ast.Store)) != 1:
+        refuse("MetaMarkdown.convert assigns current_context more than once")
+    if "self.current_context = None" not in ast.unparse(mf["reset"]):
+        refuse("MetaMarkdown.reset no longer clears current_context")
     for needle in ["link = self.convert_link(m)", "except (ValueError, RuntimeError) as e:", "link.text = m['name']"]:
         if needle not in pf.get("handleMatch", ""):
             refuse(f"FordLinkProcessor.handleMatch no longer contains `{needle}`")
